@@ -28,7 +28,7 @@ def default_values(case):
 signature_matches = c01.signature_matches
 
 EDITS = ['none', 'replace-initial-condition', 'add-metric', 'add-lmi', 'switch-backend', 'primal-mode', 'trace-heuristic',
-         'failed-middle-solve', 'new-sample']
+         'failed-middle-solve', 'new-sample', 'inaccurate-second-solve']
 
 
 def apply_edit(env, m, edit, tagname=""):
@@ -96,6 +96,14 @@ def prog(env, case):
         kw['return_primal_or_dual'] = 'primal'
     elif edit == 'trace-heuristic':
         kw['dimension_reduction_heuristic'] = 'trace'
+    elif edit == 'inaccurate-second-solve':
+        # the second solve ends with cvxpy's status 'optimal_inaccurate' (a solution is returned): everything must still
+        # be refreshed from it.  Replays obtain the status from SCS with an unreachable accuracy target.
+        apply_edit(env, m, 'replace-initial-condition')
+        if env.sym:
+            cstub.statuses = ('optimal_inaccurate',)
+        else:
+            kw.update(eps=1e-12, max_iters=3000)
     elif edit == 'failed-middle-solve':
         if env.sym:
             for st in (cstub, mstub):
@@ -114,6 +122,8 @@ def prog(env, case):
         apply_edit(env, m, edit)
     n_sym_before = env.eng.nvars if env.sym else 0
     t2, e2 = pipeline.safe_solve(env, pep, tag + ":solve2", wrapper=b2, **kw)
+    if env.sym and edit == 'inaccurate-second-solve':
+        cstub.statuses = ('optimal',)
     if e2:
         return e2
     if t2 is None:
@@ -121,6 +131,14 @@ def prog(env, case):
     if not env.sym:
         env.tol = 5e-4
     # ---- (a0) the leaves themselves carry the latest solution -------------------------------------------------
+    sizes_ok = (pep.F_value is not None and pep.G_value is not None and len(pep.F_value) >= Expression.counter
+                and len(pep.G_value) == Point.counter)
+    env.check(sizes_ok, "after the last solve F_value / G_value do not have (at least) one entry per leaf expression / point of the model "
+              "that was solved (they were not refreshed): %s / %s for %d / %d leaves"
+              % (None if pep.F_value is None else len(pep.F_value), None if pep.G_value is None else len(pep.G_value),
+                 Expression.counter, Point.counter), signature=tag + ":stale:instance-not-refreshed")
+    if not sizes_ok:
+        return "stale instance"
     for k, e in enumerate(Expression.list_of_leaf_expressions):
         env.check_eq(e._value, pep.F_value[k], "a leaf expression does not carry the value of the latest solve",
                      signature=tag + ":stale:leaf-expression")
@@ -199,6 +217,8 @@ def prog(env, case):
     m_f = pipeline.build(env, spec)
     if edit in ('replace-initial-condition', 'add-metric', 'add-lmi', 'new-sample'):
         apply_edit(env, m_f, edit)
+    elif edit == 'inaccurate-second-solve':
+        apply_edit(env, m_f, 'replace-initial-condition')
     tf, ef = pipeline.safe_solve(env, m_f.pep, tag + ":fresh", wrapper=b2, **kw)
     if ef:
         return ef
@@ -258,6 +278,10 @@ MODELS = [
     ('quad', dict(fclass='quad', steps=['grad'])),
     ('partition', dict(fclass='ssc', steps=['grad'], partition=2)),
     ('linop', dict(fclass='linop', steps=['grad'], value_metric=False)),
+    # LMIs from all three sources at once: declared on the PEP, declared on a function, generated by the class
+    ('lmi-mixed', dict(fclass='quad', steps=['grad'], lmis=['one'], function_lmi=True)),
+    # a step's side constraint lives on a composite function (which the PEP did not declare itself)
+    ('composite-inexact', dict(fclass='ssc', second='sc', steps=['inexact'])),
 ]
 
 
@@ -269,6 +293,10 @@ def cases(tier):
                 if tier == 'quick' and mname in ('quad', 'partition') and edit not in ('none', 'add-metric', 'switch-backend'):
                     continue
                 if tier == 'quick' and mname == 'linop' and edit not in ('none', 'new-sample'):
+                    continue
+                if tier == 'quick' and mname in ('lmi-mixed', 'composite-inexact') and edit not in ('none', 'add-metric'):
+                    continue
+                if edit == 'inaccurate-second-solve' and (be != 'cvxpy' or mname not in ('gd', 'lmi')):
                     continue
                 cs.append(dict(id="%s-%s-%s" % (mname, edit, be), mname=mname, spec=spec, edit=edit, backend=be,
                                input_zero_tests='generic', output_branches='first'))
